@@ -1,6 +1,280 @@
-import UflVerif.Model.Construct
+/-
+C05  Operators build expressions with the mathematically intended value.
+
+The constructors are modelled in Model/Construct.lean (tied to the live classes by the
+correspondence in harness/props/c05.py).  For each one: whenever it returns an expression, that
+expression has the shape and free indices of the requested operation and its value (denotational
+`eval`, any field K of characteristic 0 — literal folding is exact rational arithmetic — any
+valuation, any index environment, any component) is the operation applied to the operand values.
+`unsupported` marks the branches the model does not cover (see Construct.lean); they are excluded.
+-/
+import Mathlib.Data.Rat.Cast.CharZero
+import Mathlib.Tactic.Ring
+import UflVerif.Sem.Congr
+import UflVerif.Sem.Sum
+import UflVerif.Sem.FI
+
 namespace UflVerif.C05
-theorem C05_p1 : True := trivial
-theorem C05_p2 : True := trivial
-theorem C05_p3 : True := trivial
+open UflVerif Expr
+
+variable {K : Type} [Field K] [CharZero K]
+
+/-! ## literals -/
+
+theorem isZero_eq (a : Expr) (h : isZero a = true) : ∃ sh f, a = .zero sh f := by
+  cases a <;> simp [isZero] at h
+  exact ⟨_, _, rfl⟩
+
+theorem eval_zero (ρ : Env K) (s : Side) (ι : IdxEnv) (a : Expr) (h : isZero a = true) (c : List Nat) :
+    eval ρ s ι a c = 0 := by
+  obtain ⟨sh, f, rfl⟩ := isZero_eq a h
+  simp [eval]
+
+theorem litVal_eval (ρ : Env K) (s : Side) (ι : IdxEnv) (a : Expr) (i : Bool) (q : ℚ) (h : litVal a = some (i, q))
+    (c : List Nat) : eval ρ s ι a c = (q : K) := by
+  cases a <;> simp only [litVal, Option.some.injEq, Prod.mk.injEq, reduceCtorEq] at h
+  · obtain ⟨_, rfl⟩ := h
+    simp [eval]
+  · obtain ⟨_, rfl⟩ := h
+    simp [eval]
+
+theorem litVal_int (a : Expr) (q : ℚ) (h : litVal a = some (true, q)) : q.den = 1 := by
+  cases a <;> simp only [litVal, Option.some.injEq, Prod.mk.injEq, reduceCtorEq, Bool.false_eq_true, false_and] at h
+  obtain ⟨_, rfl⟩ := h
+  simp
+
+theorem mkLit_eval (ρ : Env K) (s : Side) (ι : IdxEnv) (i : Bool) (q : ℚ) (hi : i = true → q.den = 1) (c : List Nat) :
+    eval ρ s ι (mkLit i q) c = (q : K) := by
+  unfold mkLit
+  split
+  · rename_i h; subst h; simp [eval]
+  · split
+    · rename_i _ h
+      simp only [eval]
+      conv_rhs => rw [Rat.cast_def, hi h]
+      simp
+    · simp only [eval]
+      rw [Rat.cast_def]
+
+theorem mkLit_shape (i : Bool) (q : ℚ) : shape (mkLit i q) = [] ∧ fi (mkLit i q) = [] := by
+  unfold mkLit; split
+  · simp [shape, fi]
+  · split <;> simp [shape, fi]
+
+theorem lit_shape (a : Expr) (i : Bool) (q : ℚ) (h : litVal a = some (i, q)) : shape a = [] ∧ fi a = [] := by
+  cases a <;> simp [litVal] at h <;> simp [shape, fi]
+
+
+/-! ## Sum -/
+
+theorem sort2_perm (a b : Expr) : sort2 a b = (a, b) ∨ sort2 a b = (b, a) := by
+  unfold sort2; split <;> simp
+
+/-- `Sum(a, b)`: value a + b componentwise, shape and free indices of the operands;
+    zero folding, literal folding and operand sorting included -/
+theorem C05_mkSum (ρ : Env K) (s : Side) (ι : IdxEnv) (a b r : Expr) (h : mkSum a b = some r) (hu : isUnsupported r = false) :
+    (∀ c, eval ρ s ι r c = eval ρ s ι a c + eval ρ s ι b c) ∧ shape r = shape a ∧ fi r = fi a := by
+  unfold mkSum at h
+  split at h
+  · cases h
+  · rename_i hsf
+    simp only [ne_eq, Bool.or_eq_true, decide_eq_true_eq, not_or, Decidable.not_not] at hsf
+    obtain ⟨hs, hf⟩ := hsf
+    split at h
+    · rename_i hz
+      simp only [Option.some.injEq] at h; subst h
+      exact ⟨fun c => by rw [eval_zero ρ s ι a hz]; simp, hs.symm, hf.symm⟩
+    · split at h
+      · rename_i hz
+        simp only [Option.some.injEq] at h; subst h
+        exact ⟨fun c => by rw [eval_zero ρ s ι b hz]; simp, rfl, rfl⟩
+      · split at h
+        · rename_i ia va ib vb ha hb
+          simp only [Option.some.injEq] at h; subst h
+          have sa := lit_shape a ia va ha
+          refine ⟨fun c => ?_, by rw [(mkLit_shape _ _).1, sa.1], by rw [(mkLit_shape _ _).2, sa.2]⟩
+          rw [mkLit_eval, litVal_eval ρ s ι a ia va ha, litVal_eval ρ s ι b ib vb hb, Rat.cast_add]
+          intro hi
+          simp only [Bool.and_eq_true] at hi
+          have d1 := litVal_int a va (by rw [ha, hi.1])
+          have d2 := litVal_int b vb (by rw [hb, hi.2])
+          have e1 : va = (va.num : ℚ) := by conv_lhs => rw [← Rat.num_div_den va, d1]; simp
+          have e2 : vb = (vb.num : ℚ) := by conv_lhs => rw [← Rat.num_div_den vb, d2]; simp
+          rw [e1, e2, ← Int.cast_add]; simp
+        · split at h
+          · simp only [Option.some.injEq] at h; subst h; simp [isUnsupported, unsupported] at hu
+          · split at h
+            · simp only [Option.some.injEq] at h; subst h
+              exact ⟨fun c => by simp [eval], by simp [shape], by simp [fi]⟩
+            · split at h
+              · simp only [Option.some.injEq] at h; subst h
+                exact ⟨fun c => by simp [eval, add_comm], by simp [shape, hs], by simp [fi, hf]⟩
+              · simp only [Option.some.injEq] at h; subst h
+                cases sort2_perm a b with
+                | inl e => rw [e]; exact ⟨fun c => by simp [eval], by simp [shape], by simp [fi]⟩
+                | inr e => rw [e]; exact ⟨fun c => by simp [eval, add_comm], by simp [shape, hs], by simp [fi, hf]⟩
+
+
+/-! ## Product -/
+
+theorem int_mul_den (va vb : ℚ) (d1 : va.den = 1) (d2 : vb.den = 1) : (va * vb).den = 1 := by
+  have e1 : va = (va.num : ℚ) := by conv_lhs => rw [← Rat.num_div_den va, d1]; simp
+  have e2 : vb = (vb.num : ℚ) := by conv_lhs => rw [← Rat.num_div_den vb, d2]; simp
+  rw [e1, e2, ← Int.cast_mul]; exact Rat.den_intCast _
+
+/-- `Product(a, b)`: the product of the two scalar values; zero and one folding, literal folding,
+    operand sorting -/
+theorem C05_mkProduct (ρ : Env K) (s : Side) (ι : IdxEnv) (a b r : Expr) (h : mkProduct a b = some r) (hu : isUnsupported r = false) :
+    eval ρ s ι r [] = eval ρ s ι a [] * eval ρ s ι b [] ∧ shape r = [] := by
+  unfold mkProduct at h
+  split at h
+  · cases h
+  · rename_i hsh
+    simp only [Bool.or_eq_true, Bool.not_eq_true', List.isEmpty_eq_false_iff, not_or, ne_eq, Decidable.not_not] at hsh
+    split at h
+    · rename_i hz
+      simp only [Option.some.injEq] at h; subst h
+      refine ⟨?_, by simp [shape]⟩
+      simp only [Bool.or_eq_true] at hz
+      cases hz with
+      | inl hz => rw [eval_zero ρ s ι a hz]; simp [eval]
+      | inr hz => rw [eval_zero ρ s ι b hz]; simp [eval]
+    · split at h
+      · rename_i ia va ib vb ha hb
+        simp only [Option.some.injEq] at h; subst h
+        refine ⟨?_, (mkLit_shape _ _).1⟩
+        rw [mkLit_eval, litVal_eval ρ s ι a ia va ha, litVal_eval ρ s ι b ib vb hb, Rat.cast_mul]
+        intro hi
+        simp only [Bool.and_eq_true] at hi
+        exact int_mul_den va vb (litVal_int a va (by rw [ha, hi.1])) (litVal_int b vb (by rw [hb, hi.2]))
+      · rename_i ia va ha hb
+        split at h
+        · simp only [Option.some.injEq] at h; subst h; simp [isUnsupported, unsupported] at hu
+        · split at h
+          · rename_i h1
+            simp only [Option.some.injEq] at h; subst h
+            refine ⟨?_, by simpa using hsh.2⟩
+            rw [litVal_eval ρ s ι a ia va ha, h1]; simp
+          · simp only [Option.some.injEq] at h; subst h
+            exact ⟨by simp [eval], by simp [shape]⟩
+      · rename_i ib vb ha hb
+        split at h
+        · simp only [Option.some.injEq] at h; subst h; simp [isUnsupported, unsupported] at hu
+        · split at h
+          · rename_i h1
+            simp only [Option.some.injEq] at h; subst h
+            refine ⟨?_, by simpa using hsh.1⟩
+            rw [litVal_eval ρ s ι b ib vb hb, h1]; simp
+          · simp only [Option.some.injEq] at h; subst h
+            exact ⟨by simp [eval, mul_comm], by simp [shape]⟩
+      · split at h
+        · simp only [Option.some.injEq] at h; subst h; simp [isUnsupported, unsupported] at hu
+        · simp only [Option.some.injEq] at h; subst h
+          cases sort2_perm a b with
+          | inl e => rw [e]; exact ⟨by simp [eval], by simp [shape]⟩
+          | inr e => rw [e]; exact ⟨by simp [eval, mul_comm], by simp [shape]⟩
+
+/-! ## Division -/
+
+/-- `Division(a, b)`: a / b; 0/b and a/1 folding, literal folding in floating point (exact here) -/
+theorem C05_mkDivision (ρ : Env K) (s : Side) (ι : IdxEnv) (a b r : Expr) (h : mkDivision a b = some r) (hu : isUnsupported r = false) :
+    eval ρ s ι r [] = eval ρ s ι a [] / eval ρ s ι b [] := by
+  unfold mkDivision at h
+  split at h
+  · cases h
+  · split at h
+    · cases h
+    · split at h
+      · cases h
+      · split at h
+        · rename_i hz
+          simp only [Option.some.injEq] at h; subst h
+          rw [eval_zero ρ s ι a hz]; simp
+        · split at h
+          · rename_i ib vb hb
+            split at h
+            · rename_i h1
+              simp only [Option.some.injEq] at h; subst h
+              rw [litVal_eval ρ s ι b ib vb hb, h1]; simp
+            · split at h
+              · rename_i ia va ha
+                simp only [Option.some.injEq] at h; subst h
+                rw [mkLit_eval ρ s ι false _ (by simp), litVal_eval ρ s ι a ia va ha, litVal_eval ρ s ι b ib vb hb, Rat.cast_div]
+              · split at h
+                · simp only [Option.some.injEq] at h; subst h; simp [isUnsupported, unsupported] at hu
+                · simp only [Option.some.injEq] at h; subst h; simp [eval]
+          · split at h
+            · simp only [Option.some.injEq] at h; subst h; simp [isUnsupported, unsupported] at hu
+            · simp only [Option.some.injEq] at h; subst h; simp [eval]
+
+
+
+/-! ## IndexSum -/
+
+theorem bindU_some (x : Option Expr) (f : Expr → Option Expr) (r : Expr) (h : bindU x f = some r)
+    (hu : isUnsupported r = false) : ∃ e, x = some e ∧ isUnsupported e = false ∧ f e = some r := by
+  unfold bindU at h
+  cases x with
+  | none => cases h
+  | some e =>
+    simp only at h
+    split at h
+    · simp only [Option.some.injEq] at h; subst h; simp [isUnsupported, unsupported] at hu
+    · rename_i hne
+      exact ⟨e, rfl, by simpa using hne, h⟩
+
+open FIlemmas in
+/-- `IndexSum(a, j)`: the sum over the extent of j of the values of a — also when the summation
+    is pushed into one factor of a product, or folded away on a zero -/
+theorem C05_mkIndexSum (ρ : Env K) (s : Side) : ∀ (a : Expr) (j : Nat) (ι : IdxEnv) (r : Expr), WF a = true →
+    mkIndexSum a j = some r → isUnsupported r = false → ∀ c, c.length = (shape a).length →
+    eval ρ s ι r c = ∑ v ∈ Finset.range (FI.dimOf j (fi a)), eval ρ s (ι.set j v) a c := by
+  intro a j
+  fun_induction mkIndexSum a j with
+  | case1 sh f j hj =>
+    intro ι r _ h _ c _
+    simp only [Option.some.injEq] at h; subst h
+    simp [eval]
+  | case2 sh f j hj => intro ι r _ h; cases h
+  | case3 x p q j hp ih =>
+    intro ι r hw h hu c hc
+    simp only [WF, Bool.and_eq_true, List.isEmpty_iff] at hw
+    obtain ⟨⟨⟨wp, wq⟩, sp⟩, sq⟩ := hw
+    simp only [shape, List.length_nil, List.length_eq_zero_iff] at hc
+    subst hc
+    obtain ⟨sb, hsb, usb, hr⟩ := bindU_some _ _ r h hu
+    have hp' : FI.has j (fi p) = false := by simpa using hp
+    rw [(C05_mkProduct ρ s ι p sb r hr hu).1, ih ι sb wq hsb usb [] (by simp [sq])]
+    simp only [eval, fi]
+    rw [dimOf_merge_right _ _ j (fi_sorted p wp) hp', Finset.mul_sum]
+    apply Finset.sum_congr rfl
+    intro v _
+    rw [eval_set_irrelevant ρ s p wp [] (by simp [sp]) ι j v hp']
+  | case4 x p q j hp hq ih =>
+    intro ι r hw h hu c hc
+    simp only [WF, Bool.and_eq_true, List.isEmpty_iff] at hw
+    obtain ⟨⟨⟨wp, wq⟩, sp⟩, sq⟩ := hw
+    simp only [shape, List.length_nil, List.length_eq_zero_iff] at hc
+    subst hc
+    obtain ⟨sa, hsa, usa, hr⟩ := bindU_some _ _ r h hu
+    have hp' : FI.has j (fi p) = true := by simpa using hp
+    have hq' : FI.has j (fi q) = false := by simpa using hq
+    rw [(C05_mkProduct ρ s ι q sa r hr hu).1, ih ι sa wp hsa usa [] (by simp [sp])]
+    simp only [eval, fi]
+    rw [dimOf_merge_left _ _ j (fi_sorted p wp) hp', Finset.mul_sum]
+    apply Finset.sum_congr rfl
+    intro v _
+    rw [eval_set_irrelevant ρ s q wq [] (by simp [sq]) ι j v hq', mul_comm]
+  | case5 x p q j hp hq =>
+    intro ι r _ h _ c _
+    simp only [Option.some.injEq] at h; subst h
+    simp only [eval]; exact sumRange_eq_sum _ _
+  | case6 e j h1 h2 hj =>
+    intro ι r _ h _ c _
+    simp only [hj, ↓reduceIte, Option.some.injEq] at h; subst h
+    simp only [eval]; exact sumRange_eq_sum _ _
+  | case7 e j h1 h2 hj =>
+    intro ι r _ h
+    simp [hj] at h
+
 end UflVerif.C05
